@@ -100,6 +100,14 @@ class RuleCtx:
         if hasattr(line, "lineno"):
             line = line.lineno
         ftxt = str(found)
+        foreign = self._foreign_combinators(site)
+        if foreign:
+            # the function was re-formulated with an iteration combinator the reference formulation does not use: the rule's
+            # template describes the reference formulation, so a mismatch says nothing about behaviour - undecided, not a verdict
+            self.obls.append(Obligation(self.rd.property_id, self.rd.rid, self.rd.kind, q, "error",
+                                        f"cannot decide `{what}`: {q.rsplit('.', 1)[-1]} is formulated with {', '.join(sorted(foreign))}, "
+                                        f"which the reference formulation does not use; found {ftxt[:120]}", f, line or l, role))
+            return
         hit = []
         if template is not None:
             import re as _re
@@ -115,6 +123,35 @@ class RuleCtx:
             return
         self.obls.append(Obligation(self.rd.property_id, self.rd.rid, self.rd.kind, q, "fail", what, f, line or l, role,
                                     str(expected), str(found), sample=_jsonable(sample) or None))
+
+    COMBINATORS = ("itertools.", "functools.reduce", "builtins.zip", "builtins.map", "builtins.filter", "builtins.enumerate", "builtins.reversed",
+                   "numpy.cumsum", "numpy.diff", "numpy.split", "numpy.array_split", "numpy.bincount", "numpy.unique", "numpy.add.reduceat",
+                   "numpy.repeat", "numpy.concatenate", "numpy.searchsorted", "numpy.flatnonzero", "numpy.nonzero", "numpy.where", "numpy.einsum",
+                   "numpy.tensordot", "numpy.vectorize", "numpy.apply_along_axis", "numpy.fromiter", "numpy.lib.stride_tricks.", "operator.",
+                   "collections.")
+
+    def _foreign_combinators(self, site):
+        if not isinstance(site, FuncInfo):
+            return set()
+        cache = self.ana.__dict__.setdefault("_foreign_cache", {})
+        if site.qualname in cache:
+            return cache[site.qualname]
+        out = set()
+        try:
+            shapes = self.ana.prog._reference_shapes()
+            inv = {v: k for k, v in getattr(self.ana.prog, "renamed", {}).items()}
+            refq = inv.get(site.qualname, site.qualname)
+            ref = shapes.get(refq)
+            if ref is not None:
+                refc = set(ref["callees"])
+                for c in self.ana.res.calls(site):
+                    t = c.callee.target or ""
+                    if c.callee.func is None and t not in refc and any(t == k or (k.endswith(".") and t.startswith(k)) for k in self.COMBINATORS):
+                        out.add(t)
+        except Exception:
+            out = set()
+        cache[site.qualname] = out
+        return out
 
     def check(self, cond: bool, site, what, line=0, role="", expected="", found="", template=None, **sample):
         if cond:
